@@ -393,7 +393,7 @@ func coqComment(s string) string {
 	return b.String()
 }
 
-func coqZ(v int64) string {
+func lvCoqZ(v int64) string {
 	if v < 0 {
 		return fmt.Sprintf("(%d)", v)
 	}
@@ -543,11 +543,11 @@ func genLevels(repo, out, harness string) error {
 		if i == len(levelBlock)-1 {
 			sep = ""
 		}
-		fmt.Fprintf(&w, "  (%s, %s)%s (* %s *)\n", coqBytes(n), coqZ(env.vals[n]), sep, coqComment(n))
+		fmt.Fprintf(&w, "  (%s, %s)%s (* %s *)\n", coqBytes(n), lvCoqZ(env.vals[n]), sep, coqComment(n))
 	}
 	w.WriteString("].\n")
 	fmt.Fprintf(&w, "Definition min_level : Z := %s.\nDefinition max_level : Z := %s.\nDefinition invalid_level : Z := %s.\n\n",
-		coqZ(env.vals["_minLevel"]), coqZ(env.vals["_maxLevel"]), coqZ(env.vals["InvalidLevel"]))
+		lvCoqZ(env.vals["_minLevel"]), lvCoqZ(env.vals["_maxLevel"]), lvCoqZ(env.vals["InvalidLevel"]))
 	writeNames := func(name, goName string, t *nameTable) error {
 		fmt.Fprintf(&w, "(* Level.%s: switch cases in source order, then the default fmt.Sprintf(pre ++ %%d ++ post, l) *)\n", goName)
 		fmt.Fprintf(&w, "Definition %s_table : list (Z * list byte) := [\n", name)
@@ -558,7 +558,7 @@ func genLevels(repo, out, harness string) error {
 				if err != nil {
 					return err
 				}
-				rows = append(rows, fmt.Sprintf("  (%s, %s)", coqZ(v), coqBytes(c.lit))+"\x00"+fmt.Sprintf(" (* %s -> %s *)", coqComment(cn), coqComment(c.lit)))
+				rows = append(rows, fmt.Sprintf("  (%s, %s)", lvCoqZ(v), coqBytes(c.lit))+"\x00"+fmt.Sprintf(" (* %s -> %s *)", coqComment(cn), coqComment(c.lit)))
 			}
 		}
 		for i, r := range rows {
@@ -590,7 +590,7 @@ func genLevels(repo, out, harness string) error {
 			return err
 		}
 		for _, l := range c.lits {
-			urows = append(urows, [2]string{fmt.Sprintf("  (%s, %s)", coqBytes(l), coqZ(v)), fmt.Sprintf(" (* %s -> %s *)", coqComment(l), coqComment(c.cnst))})
+			urows = append(urows, [2]string{fmt.Sprintf("  (%s, %s)", coqBytes(l), lvCoqZ(v)), fmt.Sprintf(" (* %s -> %s *)", coqComment(l), coqComment(c.cnst))})
 		}
 	}
 	for i, r := range urows {
